@@ -8,7 +8,7 @@ from ..ref import refsem
 ID = 'C05'
 LEVEL = 'exploration'
 SALTS = 8
-RULE = ('each run = (i) 6 literal histories: in one logic (stratified over the 57) a rule-only tableau receives a seeded subset of '
+RULE = ('each run = (o) 7 members of the enumeration of all (base sentence x non-empty subset of the literal constraints at one world) of its logic, swept completely by one quick batch, arrival order / world / fork seeded; (i) 6 literal histories: in one logic (stratified over the 57) a rule-only tableau receives a seeded subset of '
         'the literal constraints over one letter / predication / opaque sentence (sentence or negation x designated/undesignated '
         'x world 0/1; plus self-identity / existence literals in the classical family) in a seeded arrival order, sometimes '
         'split across a fork, sometimes with an equal-content duplicate node, under a seeded hash order; closed <=> R1 finds '
@@ -120,6 +120,17 @@ def run(ctx):
     rng = ctx.rng('workload')
     logic = proofwl.pick_logic(rng, ctx.index, SALTS)
     sem = refsem.get(logic)
+    # systematic part: this logic's enumeration of (base sentence x subset of the literal
+    # constraints at one world), 7 members per run, swept completely by one quick batch
+    wl = len(proofwl.weighted_logics())
+    nth = (ctx.index // (SALTS * wl)) * SALTS + ctx.index % SALTS      # n-th run on this slot of the logic cycle
+    total = branchsim.literal_case_count(sem)
+    off = (ctx.seed * 7919) % total
+    for k in range(7):
+        ctx.count('enumerated_literal_sets')
+        judge_literals(ctx, branchsim.enum_literal_case(rng, sem, off + nth * 7 + k))
+        if ctx.violations:
+            return
     for k in range(6):
         judge_literals(ctx, branchsim.gen_literal_case(rng, sem))
         if ctx.violations:
